@@ -178,8 +178,29 @@ func ruleR13b(c *Check, g *gateInfo, rule string) {
 	}
 	callers := c.G.CallerFuncs(clear)
 	okOwner := len(callers) > 0
+	// the executing method itself, or a helper of its package that only the executing method (or such a
+	// helper) calls
+	var ownedBy func(f *ssa.Function, depth int) bool
+	ownedBy = func(f *ssa.Function, depth int) bool {
+		if engine.TopFunc(f) == ex.ExecMethod {
+			return true
+		}
+		if depth > 2 || f.Pkg != ex.ExecMethod.Pkg {
+			return false
+		}
+		cs := c.G.CallerFuncs(engine.TopFunc(f))
+		if len(cs) == 0 {
+			return false
+		}
+		for _, g := range cs {
+			if !ownedBy(g, depth+1) {
+				return false
+			}
+		}
+		return true
+	}
 	for _, f := range callers {
-		if engine.TopFunc(f) != ex.ExecMethod {
+		if !ownedBy(f, 0) {
 			okOwner = false
 		}
 	}
